@@ -10,7 +10,7 @@ import (
 
 // Record-level faults on the table model (DESIGN.md §2.6). Each returns a description for the event log.
 
-var junkTokens = []string{"abc", "-1", "+5", "1e999", "NaN", "25:61:61", "2024-01-01", "99999999999999999999", "\x00", " ", "ü", "12:xx:00", "1:2:3:4", "0", "-0.0", "20241301", strings.Repeat("9", 400), "\"", "a,b", "line\nbreak"}
+var junkTokens = []string{"20240015", "20240100", "20241332", "20240230", "00000000", "99999999", "-", "+", ".", "#", "/", "abc", "-1", "+5", "1e999", "NaN", "25:61:61", "2024-01-01", "99999999999999999999", "\x00", " ", "ü", "12:xx:00", "1:2:3:4", "0", "-0.0", "20241301", strings.Repeat("9", 400), "\"", "a,b", "line\nbreak"}
 
 type FaultFocus int
 
@@ -76,9 +76,9 @@ func MutateStatic(t *sim.T, m *StaticModel, focus FaultFocus) string {
 	f := m.Feed
 	var kind int
 	if focus == FocusRefs {
-		kind = []int{2, 3, 4, 5, 6, 7, 16, 17, 18, 0, 19, 20, 14}[t.Choose(13)]
+		kind = []int{2, 3, 4, 5, 6, 7, 16, 17, 18, 0, 19, 20, 14, 21}[t.Choose(14)]
 	} else {
-		kind = t.Choose(21)
+		kind = t.Choose(24)
 	}
 	switch kind {
 	case 0: // blank a cell
@@ -340,6 +340,53 @@ func MutateStatic(t *sim.T, m *StaticModel, focus FaultFocus) string {
 		o := t.Choose(len(tb.Rows))
 		setCell(tb, r, tb.Col("parent_station"), cell(tb, o, tb.Col("stop_id")))
 		return fmt.Sprintf("stop row %d re-parented to row %d", r+1, o+1)
+	case 21: // several cells of one row blank (several required values missing at once)
+		tb := pickTable(t, f)
+		if t.Chance(1, 2) {
+			if a := f.Table("agency.txt"); a != nil && a.Raw == nil {
+				tb = a
+			}
+		}
+		if tb == nil || len(tb.Rows) == 0 {
+			return ""
+		}
+		r := t.Choose(len(tb.Rows))
+		n := 0
+		for c := range tb.Header {
+			if t.Chance(1, 2) && setCell(tb, r, c, "") {
+				n++
+			}
+		}
+		return fmt.Sprintf("%s row %d: %d cells blank", tb.Name, r+1, n)
+	case 22: // a very wide table (hundreds of unknown columns)
+		tb := pickTable(t, f)
+		if tb == nil {
+			return ""
+		}
+		n := []int{20, 300, 1000}[t.Choose(3)]
+		for k := 0; k < n; k++ {
+			tb.Header = append(tb.Header, fmt.Sprintf("x_extra_%d", k))
+		}
+		for i := range tb.Rows {
+			for k := 0; k < n; k++ {
+				tb.Rows[i] = append(tb.Rows[i], "")
+			}
+		}
+		return fmt.Sprintf("%s widened by %d unknown columns", tb.Name, n)
+	case 23: // a date-like cell with an impossible month or day
+		tb := pickTable(t, f, "calendar.txt", "calendar_dates.txt")
+		if tb == nil || len(tb.Rows) == 0 {
+			return ""
+		}
+		cols := []string{"start_date", "end_date", "date"}
+		col := tb.Col(cols[t.Choose(3)])
+		if col < 0 {
+			return ""
+		}
+		r := t.Choose(len(tb.Rows))
+		v := []string{"20240015", "20240100", "20241332", "20240230", "20230229", "00000000", "99999999", "20240001", "2024001", "202400150"}[t.Choose(10)]
+		setCell(tb, r, col, v)
+		return fmt.Sprintf("%s row %d col %s = %s", tb.Name, r+1, tb.Header[col], v)
 	case 20: // a reference column made blank
 		tb := pickTable(t, f, "routes.txt", "stops.txt", "transfers.txt", "trips.txt", "stop_times.txt", "frequencies.txt")
 		if tb == nil || len(tb.Rows) == 0 {
